@@ -16,7 +16,7 @@ for p in selftest/$id/*.patch /verif/seeded/*/patch.diff; do
   if ! git -C "$d/r" apply "$(realpath $p)" 2>/dev/null; then echo "SKIP $name (patch does not apply)"; fail=1; else
     if [ -n "$WITH_TESTS" ]; then
       pk=$(git -C "$d/r" diff --name-only | xargs -n1 dirname | sort -u | sed 's|^|./|')
-      (cd "$d/r" && go test -vet=off -count=1 $pk >/dev/null 2>&1) && t="tests-pass" || t="TESTS-FAIL"
+      (cd "$d/r" && go test -vet=off -count=1 -timeout 120s $pk >/dev/null 2>&1) && t="tests-pass" || t="TESTS-FAIL"
     fi
     out=$(VERIF_DIR=/verif bin/govc check -property "$id" -tier quick -repo "$d/r" -no-evidence 2>&1); rc=$?
     n=$(echo "$out" | grep -c '^VIOLATION')
